@@ -124,6 +124,10 @@ fn base_name(e: &EnumS) -> &'static str {
     }
 }
 
+pub fn all_inputs(tier: &str) -> Vec<pipe::Input> {
+    cases(tier).iter().map(|c| to_input(&[ModuleS::new("m").with(vec![Item::Enum(c.e.clone())])])).collect()
+}
+
 pub fn run(tier: &str, only: Option<&Value>) -> i32 {
     let mut rep = Report::new("C08", tier);
     let all = cases(tier);
